@@ -146,6 +146,14 @@ class Replayer:
         if op == "assign":
             o = self.decode(ev["a"])
             return s.assign(o, mu=pnum(ev["a_after"]["mu"]), sigma=pnum(ev["a_after"]["sigma"]))
+        if op == "setattr":
+            mh = self.model_for(ev["model"])
+            attr, v = ev["attr"], ev["value"]
+            if attr == "gamma":
+                return s.set_model_attr(mh, "gamma", s.gamma_callable(mh, v))
+            if attr == "limit":
+                return s.set_model_attr(mh, "limit_sigma", v == "T")
+            return s.set_model_attr(mh, attr, pnum(v))
         if op == "sorted":
             return s.sort(self.decode(ev["arg"]), group=g, role=r)
         if op == "hash":
